@@ -212,8 +212,6 @@ package trafficshape
 //@   modifies ConfigRequest.*, Trafficshape.*, Default.*
 //@ extern func json.NewDecoder
 //@   ensures result != nil
-//@ func parseShapes
-//@   trusted
 //@ func (*Listener).SetLatency
 //@   trusted
 //@ func (*Listener).SetDefaults
@@ -234,3 +232,20 @@ package trafficshape
 //@   ensures[lock-released] !h.l.Shapes.wheld
 //@   ensures[no-read-lock-left] h.l.Shapes.rheld == 0
 //@   loop 0 invariant h.l.Shapes.wheld && h.l.Shapes.rheld == 0 && nErrReply == old(nErrReply) && h.l.Shapes == old(h.l.Shapes) && h.l == old(h.l)
+
+// parseShapes (thin, C18): validation of a posted configuration. A throttle only passes with a POSITIVE bandwidth - a
+// zero bandwidth would make the write loop wait forever once the response reaches the throttle (the response is then
+// neither delivered nor cut).
+//@ extern func sort.SliceStable
+//@ func parseShapes
+//@   serves C18
+//@   requires ts != nil
+//@   modifies Shape.*, Throttle.*
+//@   noframe
+//@   loop 0 invariant ts != nil
+//@   loop 1 invariant ts != nil && shape != nil
+//@   loop 2 invariant ts != nil && shape != nil
+//@   loop 3 invariant ts != nil && shape != nil
+//@   at call 0 of Split before assert[only-a-throttle-with-a-positive-bandwidth-passes-validation] throttle != nil && throttle.Bandwidth > 0
+// (nil throttles are rejected by the loop above and sorting only permutes: assumed at the call, not proved)
+//@   at call 0 of getActionsFromThrottles before assume forall i int :: 0 <= i && i < len(shape.Throttles) ==> shape.Throttles[i] != nil
